@@ -30,8 +30,10 @@ RECURSIVE NameHash(_)
 NameHash(n) == IF n = <<>> THEN 0 ELSE LIdx(n[1]) + 5 * NameHash(Tail(n))
 
 \* ---------------------------------------------------------------- list level
-\* address ids: 1 = 10.0.0.1, 2 = fe80::1, 3 = ::ffff:10.0.0.1 (the IPv4-mapped form of 1: a different
-\* VALUE, 16 octets), 4 = 10.0.0.2.  Texts are spelled out symbol by symbol; the harness checks them
+\* addresses (family, value id): value 1 = 0x0a000001: (4,1) = 10.0.0.1 and (6,1) = ::a00:1 = ::10.0.0.1 (same
+\* integer, other family: a DIFFERENT address); value 7 = 1: (4,7) = 0.0.0.1 and (6,7) = ::1; (6,2) = fe80::1;
+\* (6,3) = ::ffff:10.0.0.1 (the IPv4-mapped form of 10.0.0.1: another integer); (4,4) = 10.0.0.2.
+\* Texts are spelled out symbol by symbol; the harness checks them
 \* against the literals it really passes (ipaddress spelling of this interpreter).
 T1 == << <<"1", "0">>, <<"0">>, <<"0">>, <<"1">> >>
 T4 == << <<"1", "0">>, <<"0">>, <<"0">>, <<"2">> >>
@@ -40,41 +42,53 @@ T2 == << <<"f", "e", "8", "0", ":", ":", "1">> >>
 Z4 == <<":", "0", "0", "0", "0">>
 T2alt == << <<"F", "E", "8", "0">> \o Z4 \o Z4 \o Z4 \o Z4 \o Z4 \o Z4 \o <<":", "0", "0", "0", "1">> >>
 T3 == << <<":", ":", "f", "f", "f", "f", ":", "a", "0", "0", ":", "1">> >>
+T1v6 == << <<":", ":", "a", "0", "0", ":", "1">> >>
+T1v6dot == << <<":", ":", "1", "0">>, <<"0">>, <<"0">>, <<"1">> >>
+Z0 == <<"0", "0", "0", "0">>
+T1v6alt == << Z0 \o Z4 \o Z4 \o Z4 \o Z4 \o Z4 \o <<":", "0", "A", "0", "0", ":", "0", "0", "0", "1">> >>
+T7v4 == << <<"0">>, <<"0">>, <<"0">>, <<"1">> >>
+T7v6 == << <<":", ":", "1">> >>
 Brack(n) == LET m == [n EXCEPT ![1] = <<"[">> \o @] IN [m EXCEPT ![Len(m)] = @ \o <<"]">>]
 Zoned(n) == [n EXCEPT ![Len(n)] = @ \o <<"%", "e", "t", "h", "0">>]
 
-DNS(n) == [t |-> "DNS", n |-> n, a |-> 0, sp |-> "-"]
-IP(a, sp) == [t |-> "IP", n |-> NoName, a |-> a, sp |-> sp]
-OtherEntry == [t |-> "OTHER", n |-> NoName, a |-> 0, sp |-> "-"]
-HD(n) == [k |-> "dns", n |-> n, a |-> 0, sp |-> "-"]
-HI(a, sp, n) == [k |-> "ip", n |-> n, a |-> a, sp |-> sp]
+DNS(n) == [t |-> "DNS", n |-> n, f |-> 0, a |-> 0, sp |-> "-"]
+IP(f, a, sp) == [t |-> "IP", n |-> NoName, f |-> f, a |-> a, sp |-> sp]
+OtherEntry == [t |-> "OTHER", n |-> NoName, f |-> 0, a |-> 0, sp |-> "-"]
+HD(n) == [k |-> "dns", n |-> n, f |-> 0, a |-> 0, sp |-> "-"]
+HI(f, a, sp, n) == [k |-> "ip", n |-> n, f |-> f, a |-> a, sp |-> sp]
 
 MCEntrySeq == <<
     DNS(<<La, Lb>>), DNS(<<Lstar, Lb>>), DNS(<<Lastar, Lb>>), DNS(<<L2star, Lb>>), DNS(<<La, Lstar>>),
-    DNS(<<Lxnstar, Lb>>), DNS(<<LXNstar, Lb>>), DNS(<<Lstar>>), DNS(T1), DNS(T1wild), IP(1, "plain"), IP(2, "alt"),
-    IP(2, "nl"), IP(3, "plain"), OtherEntry >>
+    DNS(<<Lxnstar, Lb>>), DNS(<<LXNstar, Lb>>), DNS(<<Lstar>>), DNS(T1), DNS(T1wild), IP(4, 1, "plain"), IP(6, 2, "alt"),
+    IP(6, 2, "nl"), IP(6, 3, "plain"), IP(6, 1, "alt"), IP(4, 7, "plain"), OtherEntry >>
 MCEntries == {MCEntrySeq[i] : i \in 1..Len(MCEntrySeq)}
 \* quick tier: the entries that carry a clause each (exact, whole-label wildcard, the D13 poison, the
-\* D15 capitalised ACE prefix, a one-label wildcard that globs "[v6]", IP text in a DNS entry, two IP values, a non-identity)
+\* D15 capitalised ACE prefix, a one-label wildcard that globs "[v6]", IP text in a DNS entry, two IP values,
+\* the two families of one integer value, a non-identity)
 MCEntriesQ == {DNS(<<La, Lb>>), DNS(<<Lstar, Lb>>), DNS(<<L2star, Lb>>), DNS(<<LXNstar, Lb>>), DNS(<<Lstar>>), DNS(<<La, Lstar>>),
-               DNS(T1wild), IP(1, "plain"), IP(2, "alt"), OtherEntry}
+               DNS(T1wild), IP(4, 1, "plain"), IP(6, 2, "alt"), IP(6, 1, "alt"), OtherEntry}
 MCHostSeq == <<
     HD(<<La, Lb>>), HD(<<LA, <<"B">> >>), HD(<<Lb, Lb>>), HD(<<Lab, Lb>>), HD(<<La, La>>), HD(<<Lxna, Lb>>),
     HD(<<Lempty, Lb>>), HD(<<La, Lb, Lempty>>), HD(<<La>>), HD(<<Lb, La, Lb>>), HD(<<La, Lstar>>),
     HD(<<L2star, Lb>>), HD(<<Lastar, Lb>>), HD(<<Lstar, Lb>>), HD(<<Lxnstar, Lb>>), HD(<<LXNa, Lb>>),
-    HI(1, "plain", T1), HI(1, "brack", Brack(T1)), HI(4, "plain", T4), HI(2, "plain", T2), HI(2, "alt", T2alt),
-    HI(2, "zoned", Zoned(T2)), HI(2, "brack", Brack(T2)), HI(2, "brackzoned", Brack(Zoned(T2))),
-    HI(3, "plain", T3), HI(3, "brack", Brack(T3)) >>
+    HI(4, 1, "plain", T1), HI(4, 1, "brack", Brack(T1)), HI(4, 4, "plain", T4), HI(6, 2, "plain", T2), HI(6, 2, "alt", T2alt),
+    HI(6, 2, "zoned", Zoned(T2)), HI(6, 2, "brack", Brack(T2)), HI(6, 2, "brackzoned", Brack(Zoned(T2))),
+    HI(6, 3, "plain", T3), HI(6, 3, "brack", Brack(T3)),
+    HI(6, 1, "plain", T1v6), HI(6, 1, "dotted", T1v6dot), HI(6, 1, "alt", T1v6alt), HI(6, 1, "brack", Brack(T1v6)),
+    HI(6, 1, "zoned", Zoned(T1v6)), HI(6, 7, "plain", T7v6), HI(6, 7, "brackzoned", Brack(Zoned(T7v6))) >>
 MCHosts == {MCHostSeq[i] : i \in 1..Len(MCHostSeq)}
 MCHostsQ == {HD(<<La, Lb>>), HD(<<LA, <<"B">> >>), HD(<<Lb, Lb>>), HD(<<Lxna, Lb>>), HD(<<Lempty, Lb>>), HD(<<La>>),
              HD(<<Lb, La, Lb>>), HD(<<L2star, Lb>>), HD(<<LXNa, Lb>>),
-             HI(1, "plain", T1), HI(1, "brack", Brack(T1)), HI(4, "plain", T4), HI(2, "plain", T2),
-             HI(2, "alt", T2alt), HI(2, "zoned", Zoned(T2)), HI(2, "brack", Brack(T2)),
-             HI(2, "brackzoned", Brack(Zoned(T2))), HI(3, "plain", T3)}
+             HI(4, 1, "plain", T1), HI(4, 1, "brack", Brack(T1)), HI(4, 4, "plain", T4), HI(6, 2, "plain", T2),
+             HI(6, 2, "alt", T2alt), HI(6, 2, "zoned", Zoned(T2)), HI(6, 2, "brack", Brack(T2)),
+             HI(6, 2, "brackzoned", Brack(Zoned(T2))), HI(6, 3, "plain", T3),
+             HI(6, 1, "plain", T1v6), HI(6, 1, "dotted", T1v6dot), HI(6, 1, "brack", Brack(T1v6)),
+             HI(6, 1, "zoned", Zoned(T1v6))}
 MCCNSeq == << <<La, Lb>>, <<Lstar, Lb>>, <<L2star, Lb>>, <<Lstar>>, <<LXNstar, Lb>> >>
 MCCNs == {MCCNSeq[i] : i \in 1..Len(MCCNSeq)}
 NoDefects == {}
-AllDefects == {"ABORT", "ACECASE"}          \* the code as it is at the pinned commit
+AllDefects == {"ABORT", "ACECASE"}          \* the recorded deviations (D15 / ACECASE has since been repaired in /repo)
+OnlyIpInt == {"IpComparedAsInteger"}        \* a deviation the code does NOT have: shown to leave RULES, refuted by replay
 OnlyAbort == {"ABORT"}                      \* (emission follows the deviations the harness finds in the tree,
 OnlyAceCase == {"ACECASE"}                  \*  so MATCHER stays drift-free after a fix: commit)
 
